@@ -28,11 +28,15 @@ type c03Op struct {
 	text   string
 	// twin: the batch carries the identity twice, under both spellings of key zero: (typ, "")@ts and (typ, "0")@ts+1
 	twin bool
+	tomb int // point-level tombstone count (a removed entry that keeps its text)
 }
 
 func (o c03Op) String() string {
 	if o.twin {
 		return fmt.Sprintf("%s batch %s%s %s[key \"\"]@%d=%v + %s[key \"0\"]@%d=%v", map[string]string{"np": "nodepoint", "ep": "edgepoint"}[o.kind], map[bool]string{true: o.parent + ">", false: ""}[o.kind == "ep"], o.node, o.typ, o.ts, o.val, o.typ, o.ts+1, o.val+1)
+	}
+	if o.tomb != 0 {
+		return fmt.Sprintf("%s %s%s %s@%d=%v text=%q tombstone-count=%d", map[string]string{"np": "nodepoint", "ep": "edgepoint"}[o.kind], map[bool]string{true: o.parent + ">", false: ""}[o.kind == "ep"], o.node, o.typ, o.ts, o.val, o.text, o.tomb)
 	}
 	switch o.kind {
 	case "np":
@@ -65,6 +69,10 @@ func c03Ops(root string) []c03Op {
 		if n == root || n == "C" {
 			ops = append(ops, c03Op{kind: "np", node: n, typ: "v", ts: 2, val: math.Copysign(0, -1)})
 		}
+		// a removed entry: point-level tombstone count 1, the text kept
+		if n == "A" || n == "C" {
+			ops = append(ops, c03Op{kind: "np", node: n, typ: "v", ts: 2, val: 7, text: "removed entry", tomb: 1})
+		}
 		// one batch with both spellings of key zero
 		if n == root || n == "B" {
 			ops = append(ops, c03Op{kind: "np", node: n, typ: "v", ts: 2, val: 41, twin: true})
@@ -72,6 +80,7 @@ func c03Ops(root string) []c03Op {
 	}
 	ops = append(ops, c03Op{kind: "ep", node: "A", parent: root, typ: "role", ts: 2, val: math.Copysign(0, -1)})
 	ops = append(ops, c03Op{kind: "ep", node: "A", parent: root, typ: "role", ts: 2, val: 41, twin: true})
+	ops = append(ops, c03Op{kind: "ep", node: "A", parent: root, typ: "role", ts: 2, val: 7, text: "removed entry", tomb: 1})
 	parents := map[string][]string{"A": {root}, "B": {root, "A"}, "C": {root, "A", "B"}}
 	for _, n := range c03Nodes {
 		for _, p := range parents[n] {
@@ -144,7 +153,7 @@ func c03Body(depths []int) mc.Body {
 			if o.parent == "R" {
 				o.parent = root
 			}
-			p := data.Point{Type: o.typ, Time: time.Unix(0, o.ts), Value: o.val, Text: o.text}
+			p := data.Point{Type: o.typ, Time: time.Unix(0, o.ts), Value: o.val, Text: o.text, Tombstone: o.tomb}
 			batch := data.Points{p}
 			if o.twin {
 				p = data.Point{Type: o.typ, Key: "0", Time: time.Unix(0, o.ts+1), Value: o.val + 1}
